@@ -8,12 +8,17 @@ that invariant, which is what makes half-close work.
 
 What is a theorem here and what is not: ordering (EOF after data, nothing after EOF, shutdown
 only after the socket wrapper shut), accounting and the conditions under which handlers are
-dropped are theorems for all schedules.  "Within bounded work" and "no stuck state under a
-fair schedule" are liveness claims; they are decided on the real classes by the fair-drain
-oracle of `harness/props/c02.py`, not by a theorem (see DESIGN.md).
+dropped are theorems for all schedules.  "No stuck state" has two theorem-level parts: a world
+at rest is complete (`C02_quiet_complete`), and no wake-up is lost at the level of one handler —
+whatever the handler registers for with the select loop, the callback it then gets makes
+measurable progress (`C02_wakeup_send/_read/_deliver`), and a handler that registers for nothing
+has nothing it could do (`C02_nothing_wanted_nothing_possible`).  "Within bounded work" for a whole
+run is a liveness claim about the real select loop; it is decided on the real classes by the
+real-loop drain oracle of `harness/props/c02.py`, not by a theorem (see DESIGN.md).
 -/
 import SshuttleModel.Props.C01
 import SshuttleModel.Lemmas.SockInv
+import SshuttleModel.Lemmas.Progress
 import SshuttleModel.Spec.Quiet
 
 namespace Sshuttle.Tunnel
@@ -560,6 +565,87 @@ example :
       [(true, [1, 2, 3])] := by
   refine ⟨⟨rfl, by decide, by decide⟩, (by intro st hst; simp only [demo2, List.mem_cons, List.not_mem_nil, or_false] at hst; rcases hst with h | h | h | h | h | h | h | h <;> subst h <;> trivial), by decide +kernel, by decide +kernel, by decide +kernel,
     by decide +kernel⟩
+
+
+/-! ### No lost wake-up: what a handler registers for is what its callback then does -/
+
+/-- The handler asks for the tunnel to be writable exactly when it holds bytes for it and the
+tunnel is not paused; the callback it then gets puts at least one more frame on the tunnel. -/
+theorem C02_wakeup_send (p : ProxyS) (m : MuxL) (e : ESock) (io : CbIo) (p' : ProxyS) (m' : MuxL) (e' : ESock)
+    (b : Bytes) (rest : List Bytes) (hw : (p.wants m).2.2 = true)
+    (hb : p.sw.buf = b :: rest) (hne : b.isEmpty = false)
+    (h : p.callback m e io = .ok p' m' e') :
+    m'.out.length > m.out.length := by
+  obtain ⟨hc, _, ht⟩ := (wants_muxW p m).mp hw
+  exact callback_sends p m e io p' m' e' b rest hc hb hne ht h
+
+/-- The handler asks for its socket to be readable exactly when it could read (not connecting,
+nothing buffered, not stopped); when the endpoint then has bytes or has closed, the callback
+consumes at least one byte or records the end-of-stream. -/
+theorem C02_wakeup_read (p : ProxyS) (m : MuxL) (e : ESock) (io : CbIo) (p' : ProxyS) (m' : MuxL) (e' : ESock)
+    (n : Nat) (hw : (p.wants m).1 = true) (hrecv : io.recv = .data n)
+    (hav : e.pending ≠ [] ∨ e.eofIn = true)
+    (h : p.callback m e io = .ok p' m' e') :
+    e'.consumed.length > e.consumed.length ∨ p'.sw.shutR = true := by
+  obtain ⟨hc, hbe, hr⟩ := (wants_sockR p m).mp hw
+  exact callback_reads p m e io p' m' e' n hc (List.isEmpty_iff.mp hbe) hr hrecv hav h
+
+/-- The handler asks for its socket to be writable whenever it holds bytes for it; when the
+socket then takes bytes, the callback delivers at least one, or — the socket having been shut
+down — drops what it holds, so that it stops asking. -/
+theorem C02_wakeup_deliver (p : ProxyS) (m : MuxL) (e : ESock) (io : CbIo) (p' : ProxyS) (m' : MuxL) (e' : ESock)
+    (n : Nat) (b : Bytes) (rest : List Bytes) (hse : SE p.sw e) (hc : p.sw.connecting = false)
+    (hb : p.mw.buf = b :: rest) (hne : b.isEmpty = false) (hsend : io.send = .sent n) (hn : n ≥ 1)
+    (h : p.callback m e io = .ok p' m' e') :
+    (p.wants m).2.1 = true ∧
+    (e'.delivered.length > e.delivered.length ∨ (e'.sawShut = true ∧ p'.mw.buf = [])) := by
+  refine ⟨(wants_sockW p m).mpr (Or.inr (by rw [hb]; rfl)), ?_⟩
+  exact callback_delivers p m e io p' m' e' n b rest hse hc hb hne hsend hn h
+
+/-- A handler that registers for nothing has nothing it could do: it is not connecting, holds
+nothing for its socket, and either has stopped reading or holds bytes for a paused tunnel. -/
+theorem C02_nothing_wanted_nothing_possible (p : ProxyS) (m : MuxL)
+    (h : p.wants m = (false, false, false)) :
+    p.sw.connecting = false ∧ p.mw.buf = [] ∧
+    (p.sw.buf = [] → p.sw.shutR = true) ∧ (p.sw.buf ≠ [] → m.tooFull = true) := by
+  have h1 : (p.wants m).1 = false := by rw [h]
+  have h2 : (p.wants m).2.1 = false := by rw [h]
+  have h3 : (p.wants m).2.2 = false := by rw [h]
+  have n2 : ¬ (p.sw.connecting = true ∨ p.mw.buf.isEmpty = false) := by
+    intro hx; rw [(wants_sockW p m).mpr hx] at h2; cases h2
+  have hc : p.sw.connecting = false := by
+    cases hcc : p.sw.connecting with
+    | false => rfl
+    | true => exact absurd (Or.inl hcc) n2
+  have hmb : p.mw.buf = [] := by
+    cases hbb : p.mw.buf with
+    | nil => rfl
+    | cons a r => exact absurd (Or.inr (by rw [hbb]; rfl)) n2
+  refine ⟨hc, hmb, ?_, ?_⟩
+  · intro hb
+    cases hr : p.sw.shutR with
+    | true => rfl
+    | false =>
+      have := (wants_sockR p m).mpr ⟨hc, by rw [hb]; rfl, hr⟩
+      rw [this] at h1; cases h1
+  · intro hb
+    cases ht : m.tooFull with
+    | true => rfl
+    | false =>
+      have hne : p.sw.buf.isEmpty = false := by
+        cases hbb : p.sw.buf with
+        | nil => exact absurd hbb hb
+        | cons a r => rfl
+      have := (wants_muxW p m).mpr ⟨hc, hne, ht⟩
+      rw [this] at h3; cases h3
+
+/-- The hypotheses of `C02_wakeup_deliver` are met by the reachable state of `demo2` (the server
+holds `[1,2,3]` for a destination that is not shut): the callback delivers. -/
+example :
+    let w : World := ({} : World).run demo2
+    (w.flows.map fun f => f.s.map fun p => ((p.wants w.sm).2.1, p.sw.connecting, p.mw.buf)) =
+      [some (true, false, [[1, 2, 3]])] := by
+  decide +kernel
 
 def demo3 : List Step :=
   demo2 ++ [.cb .server 0 { recv := .data 65536, send := .sent 65536 }, .dstWrite 0 [9], .dstEof 0,
